@@ -328,12 +328,15 @@ def pred_poll(case, stats):
         state['got'].append(p)
         if len(state['got']) >= len(params):
             state['got'] = []
+            state['consecutive_failures'] = 0
             if state['cycle'] + 1 >= case['cycles']:
                 process.done = True
             set_cycle(state['cycle'] + 1)
 
     def failure(exc):
         state['failures'] += 1
+        state['consecutive_failures'] = state.get('consecutive_failures', 0) + 1
+        state['max_consecutive'] = max(state.get('max_consecutive', 0), state['consecutive_failures'])
         if state['got']:
             state['problems'].append({'cycle': state['cycle'], 'partial_poll_delivered': list(state['got'])})
         state['got'] = []
@@ -344,7 +347,7 @@ def pred_poll(case, stats):
     set_cycle(0)
     plan = [None] if case['cut_at'] is None else [{'dir': 's2c', 'kind': 'cut', 'at': case['cut_at']}, None, None]
     relay.set_plan(plan)
-    via = proxy(host=relay.address[0], port=relay.address[1], timeout=2.0, depth=ex['depth'], multiple=ex['multiple'])
+    via = proxy(host=relay.address[0], port=relay.address[1], timeout=5.0, depth=ex['depth'], multiple=ex['multiple'])
     try:
         poll.run(via, process=process, failure=failure, cycle=0.01, latency=0.01, params=params, pass_thru=True)
     finally:
@@ -354,6 +357,11 @@ def pred_poll(case, stats):
     for pr in state['problems'][:1]:
         stats.fail('poll', 'poll:value-delivered-for-a-poll-not-completely-received-or-of-another-cycle', case, observed=pr,
                    expected='process() receives, per completed poll, each parameter once with the values the device holds in that cycle; nothing for a failed poll')
+    if case['cut_at'] is not None and state.get('max_consecutive', 0) >= 2:
+        # one injected fault (the first connection is cut once; every later connection is transparent): the poll after the failed
+        # one must use a new connection and complete
+        stats.fail('poll', 'poll:no-recovery-after-a-single-fault', case, observed={'consecutive_failed_polls': state['max_consecutive']},
+                   expected='after a failed poll the connection is discarded and the next poll reconnects and delivers')
     if case['cut_at'] is None and state['failures']:
         stats.fail('poll', 'poll:fault-free-poll-failed', case, observed={'failures': state['failures']}, expected='no failure without a fault')
     stats.extra.setdefault('poll_s2c', 0)
